@@ -100,6 +100,60 @@ def post(ctx):
             "well_formed_controls_accepted": accepted}
 
 
+def handwritten():
+    """spellings the renderer does not produce, each with its hand-written abstract program as ground truth: decimals
+    as divisors and as bases of powers, elif chains over comparisons with variables, equal-valued named constants and
+    two notations of one number (an elif chain is NOT a switch: a later branch runs only if every earlier condition
+    failed, whatever the conditions look like)"""
+    from fractions import Fraction as F
+    ONE = ()
+
+    def V(v, e=1):
+        return ((v, e),)
+
+    def asg(v, poly):
+        return ("assign", v, [(F(1), poly)], ("true",), v)
+
+    def inc(v, k):
+        return asg(v, [(F(1), V(v)), (F(k), ONE)])
+
+    def choice(v, *alts):
+        return ("assign", v, [(F(p), ([(F(c), ONE)] if c else [])) for p, c in alts], ("true",), v)
+
+    def eq(v, rhs):
+        return ("atom", [(F(1), V(v))], "==", rhs)
+    TA = {"vars": ["x", "y", "z"], "s0": {}, "guard": ("true",),
+          "init": [asg("x", [(F(1), ONE)]), asg("y", [(F(1), ONE)]), asg("z", [])],
+          "body": [("assign", "x", [(F(1, 2), [(F(4), V("x"))]), (F(1, 2), [(F(1, 4), V("x"))])], ("true",), "x"),
+                   asg("y", [(F(9, 4), V("y")), (F(-2), V("x")), (F(1, 4), ONE)]),
+                   asg("z", [(F(1), V("z")), (F(2, 5), (("x", 1), ("y", 1))), (F(2), ONE)])]}
+    A = {"decimal_divisors_and_bases": "x = 1\ny = 1\nz = 0\nwhile true:\n    x = x/0.25 {1/2} x/4\n    y = 1.5**2*y - x/0.5 + 0.5**2\n    z = z + x*y/2.5 + 2**2*0.5\nend\n",
+         "fractions": "x = 1\ny = 1\nz = 0\nwhile true:\n    x = x/(1/4) {1/2} x/4\n    y = (3/2)**2*y - x/(1/2) + (1/2)**2\n    z = z + x*y/(5/2) + 2**2*(1/2)\nend\n",
+         "plain": "x = 1\ny = 1\nz = 0\nwhile true:\n    x = 4*x {1/2} x/4\n    y = 9/4*y - 2*x + 1/4\n    z = z + 2/5*x*y + 2\nend\n"}
+    half = [(F(1, 2), ONE)]
+    TB = {"vars": ["c", "d", "h", "lo", "mid", "w", "x", "y", "z"], "s0": {}, "guard": ("true",),
+          "init": [asg("x", [(F(1), ONE)]), asg("y", [(F(1), ONE)]), asg("z", [(F(2), ONE)]), asg("h", []), asg("lo", [(F(1), ONE)]),
+                   asg("mid", [(F(1), ONE)]), asg("c", []), asg("d", []), asg("w", [])],
+          "body": [choice("x", (F(1, 2), 1), (F(1, 2), 2)), choice("y", (F(1, 3), 1), (F(2, 3), 2)),
+                   choice("h", (F(1, 4), 0), (F(3, 4), F(1, 2))),
+                   ("if", [eq("x", [(F(1), V("y"))]), eq("x", [(F(1), V("z"))])], [[inc("c", 1)], [inc("c", 2)]], [inc("c", 4)]),
+                   ("if", [eq("x", [(F(1), V("lo"))]), eq("x", [(F(1), V("mid"))])], [[inc("d", 1)], [inc("d", 2)]], [inc("d", 4)]),
+                   ("if", [eq("h", half), eq("h", half)], [[inc("w", 1)], [inc("w", 2)]], [inc("w", 4)])]}
+    head = "x = 1\ny = 1\nz = 2\nh = 0\nlo = 1\nmid = 1\nc = 0\nd = 0\nw = 0\nwhile true:\n    x = 1 {1/2} 2\n    y = 1 {1/3} 2\n    h = 0 {1/4} 1/2\n"
+    B = {"elif": head + "    if x == y:\n        c = c + 1\n    elif x == z:\n        c = c + 2\n    else:\n        c = c + 4\n    end\n"
+                        "    if x == lo:\n        d = d + 1\n    elif x == mid:\n        d = d + 2\n    else:\n        d = d + 4\n    end\n"
+                        "    if h == 0.5:\n        w = w + 1\n    elif h == 1/2:\n        w = w + 2\n    else:\n        w = w + 4\n    end\nend\n",
+         "nested": head + "    if x == y:\n        c = c + 1\n    else:\n        if x == z:\n            c = c + 2\n        else:\n            c = c + 4\n        end\n    end\n"
+                          "    if x == lo:\n        d = d + 1\n    else:\n        if x == mid:\n            d = d + 2\n        else:\n            d = d + 4\n        end\n    end\n"
+                          "    if h == 0.5:\n        w = w + 1\n    else:\n        if h == 1/2:\n            w = w + 2\n        else:\n            w = w + 4\n        end\n    end\nend\n"}
+    items = []
+    for name, T, texts, goals in (("decimal_div_pow", TA, A, ["x", "y", "z", "x*y"]), ("elif_not_a_switch", TB, B, ["c", "d", "w", "c*d", "c**2"])):
+        for sp, text in texts.items():
+            items.append({"id": f"hand-{name}-{sp}", "text": text, "T": T, "params": [], "types": None, "points": [{}], "goals": goals,
+                          "origin": f"hand-written spelling {name}/{sp}"})
+    return items
+
+
 def main(tier, seed):
     quick = tier == "quick"
     rng = random.Random(seed)
@@ -127,6 +181,7 @@ def main(tier, seed):
             text = gen.render_variant(T, kind, random.Random(s), g.types)
             items.append({"id": f"v{s}-{kind}", "text": text, "T": T, "params": params, "types": g.types,
                           "points": points, "goals": goals, "origin": f"generator seed={s} spelling={kind}"})
+    items += handwritten()
     return analysis_check("C19", tier, seed, items=items, want=["parsed", "moments"],
                           builders=[C.b_source, C.b_parse_equiv, C.b_moments], N=4 if quick else 6, post=post,
                           timeout=100,
